@@ -114,6 +114,13 @@ class Gen:
                     add(self.key_obj(rng.choice(free), False))
                 else:
                     add(rng.choice(pool)())
+            elif style == 'unsortable':
+                # at least two unorderable objects of one class: both sort attempts fail (insertion order is kept)
+                tags = [k[1] for k in keys if k[0] == 'o' and k[2] == '0']
+                if len(keys) < 2 or len(tags) != len(set(tags)):
+                    add(self.key_obj(tags[0] if tags else rng.choice(KEY_TAGS_UNORDERABLE), False))
+                else:
+                    add(rng.choice([rand_int, rand_str, lambda: self.key_obj(rng.choice(KEY_TAGS_UNORDERABLE), False)])())
             elif style == 'unord':
                 if rng.random() < 0.5:
                     add(self.key_obj(rng.choice(KEY_TAGS_UNORDERABLE), False))
